@@ -678,16 +678,16 @@ func ruleNoShortcutBeforeDispatch(rule string) func(*Ctx) {
 				continue
 			}
 			n++
-			sw := tables[0].Stmt
+			sw := tables[0].At
 			early := 0
 			for _, ret := range returnsIn(f) {
-				if ret.End() <= sw.Pos() {
+				if ret.End() <= sw {
 					early++
 					c.bad(rule, f, fmt.Sprintf("return before dispatch#%d", early), ret.Pos(), "%s returns before the switch over %s: this path handles some input outside the per-format code, so the result need not be something the inverse function accepts (an empty string 'encrypted' to an empty string cannot be decrypted)", f.Name, fmtParam.Name())
 				}
 			}
 			if early == 0 {
-				c.ok(rule, f, "dispatch first", sw.Pos(), true, "no return precedes the switch over %s", fmtParam.Name())
+				c.ok(rule, f, "dispatch first", sw, true, "no return precedes the switch over %s", fmtParam.Name())
 			}
 		}
 		if n < half(8) {
